@@ -10,7 +10,8 @@ LEVEL_TEXT = ('The closure every generated method is made of (_ProxyMethod, both
               'in order, with host = part-before-colon and port = int(part-after-colon); _HandleZooKeeper passes netloc, path and the fragment (None when empty) to ZooKeeperServerSetProvider.')
 LEVEL_NOTE = ('Strings are opaque: s.split(sep) is a list of uninterpreted parts split_part(s, sep, k), k < split_count(s, sep), with more than one part exactly when sep occurs in s; int() and lower() are uninterpreted; '
               'urlparse / ParseResult are trusted to carry the six components. Not under contract: _BuildServiceProxy\'s reflection (inspect.getmembers, is_user_method, the two dict comprehensions and type()): '
-              'that each public method gets both forms is checked only by the existing unit test; MessageDispatcher.DispatchMethodCall itself is C01.')
+              'that each public method gets both forms is checked only by the existing unit test; MessageDispatcher.DispatchMethodCall itself is C01.'
+              ' BOUNDED, not proved: that the generated class has a blocking and an _async proxy for own, underscore-prefixed, inherited and timeout-named methods and that each forwards five argument shapes unchanged -- run on every check on the real _BuildServiceProxy with a recording dispatcher.')
 ASSUMPTIONS = ['python str.split / int / lower semantics as uninterpreted functions with the stated axioms', 'inspect / type() class generation not modelled']
 TRUSTED = []
 BOUNDED = [dict(name='generated-class-has-both-forms-of-every-user-method', replay_unit='ClientProxyBuilder._BuildServiceProxy.ProxyMethod._ProxyMethod',
